@@ -21,6 +21,7 @@ package main
 // (DESIGN §7 F4): State() must read NotConnected once Close has returned.
 
 import (
+	"bytes"
 	"context"
 	"encoding/json"
 	"errors"
@@ -34,6 +35,7 @@ import (
 
 	"github.com/arloliu/go-secs/v2/hsms"
 	"github.com/arloliu/go-secs/v2/hsmsss"
+	"github.com/arloliu/go-secs/v2/secs1"
 	"github.com/arloliu/go-secs/v2/secs2"
 )
 
@@ -45,9 +47,10 @@ func init() {
 }
 
 const (
+	c10S1Dev        = 0x0042
 	c10CloseTimeout = 2 * time.Second
-	c10T6           = 400 * time.Millisecond
-	c10T7           = 400 * time.Millisecond
+	c10T6           = 800 * time.Millisecond
+	c10T7           = 800 * time.Millisecond
 )
 
 type c10Op struct {
@@ -67,11 +70,14 @@ type c10History struct {
 	Tag   string    `json:"tag"`
 	// LongBackoff configures initial backoff 5 s / T5 10 s (Close must interrupt the sleep).
 	LongBackoff bool `json:"long_backoff,omitempty"`
+	// Transport "" = HSMS-SS, "secs1" = SECS-I (raw E4 peer of peer_life_s1.go; S1Equip = library is equipment).
+	Transport string `json:"transport,omitempty"`
+	S1Equip   bool   `json:"s1_equipment,omitempty"`
 }
 
 func (h c10History) text() string {
 	var sb strings.Builder
-	sb.WriteString(h.Role + "|" + strings.Join(h.Behs, ",") + "|")
+	sb.WriteString(h.Transport + fmt.Sprint(h.S1Equip) + "|" + h.Role + "|" + strings.Join(h.Behs, ",") + "|")
 	for _, p := range h.Progs {
 		for _, o := range p {
 			fmt.Fprintf(&sb, "%s:%d ", o.Kind, o.Arg)
@@ -218,9 +224,22 @@ func c10RunHistory(h c10History) (res c10Result) {
 		p.onExit = func(why string) { ln.debugf("peer#%d exit: %s", id, why) }
 		return p
 	}
+	isS1 := h.Transport == "secs1"
+	var s1peers []*lifeS1Peer
+	mkS1 := func(conn net.Conn, kind string) *lifeS1Peer {
+		p := newLifeS1Peer(conn, h.S1Equip, lifeS1Beh{Kind: kind})
+		pmu.Lock()
+		s1peers = append(s1peers, p)
+		pmu.Unlock()
+		return p
+	}
 	defer func() {
 		pmu.Lock()
 		for _, p := range peers {
+			p.stop()
+			_ = p.conn.Close()
+		}
+		for _, p := range s1peers {
 			p.stop()
 			_ = p.conn.Close()
 		}
@@ -237,6 +256,21 @@ func c10RunHistory(h c10History) (res c10Result) {
 		return "refuse"
 	}
 	servePeer := func(conn net.Conn, b string) {
+		if isS1 {
+			switch b {
+			case "connect":
+				mkS1(conn, "serve").run(c10S1Dev)
+			case "drop":
+				_ = conn.Close()
+			case "dropLate":
+				p := mkS1(conn, "serve")
+				go func() { time.Sleep(20 * time.Millisecond); _ = conn.Close() }()
+				p.run(c10S1Dev)
+			case "stall": // a peer that never answers ENQ: sends exhaust their retries, the core drops the line
+				mkS1(conn, "silent").run(c10S1Dev)
+			}
+			return
+		}
 		switch b {
 		case "connect":
 			mk(conn, lifeBehaviour{Kind: "serve"}).run()
@@ -286,24 +320,55 @@ func c10RunHistory(h c10History) (res c10Result) {
 	if h.LongBackoff {
 		co = append(co, hsms.WithT5(10*time.Second), hsms.WithReconnectBackoff(5*time.Second, 2))
 	}
-	var opts []hsmsss.Option
-	for _, o := range co {
-		opts = append(opts, hsmsss.WithConnectionOption(o))
-	}
-	if libActive {
-		opts = append(opts, hsmsss.WithActive(), hsmsss.WithDialer(ln.dial))
+	var conn hsms.Connection
+	if isS1 {
+		so := []secs1.Option{secs1.WithDeviceID(c10S1Dev), secs1.WithT1(300 * time.Millisecond), secs1.WithT2(400 * time.Millisecond),
+			secs1.WithT4(2 * time.Second), secs1.WithRetryLimit(2)}
+		for _, o := range co {
+			so = append(so, secs1.WithConnectionOption(o))
+		}
+		if h.S1Equip {
+			so = append(so, secs1.WithEquipment())
+		} else {
+			so = append(so, secs1.WithHost())
+		}
+		if libActive {
+			so = append(so, secs1.WithActive(), secs1.WithDialer(ln.dial))
+		} else {
+			so = append(so, secs1.WithPassive(), secs1.WithListener(ln.listen))
+		}
+		cfg, err := secs1.NewConfig("lifepipe", 1, so...)
+		if err != nil {
+			res.setup = err.Error()
+			return
+		}
+		c1, err := secs1.New(cfg)
+		if err != nil {
+			res.setup = err.Error()
+			return
+		}
+		conn = c1
 	} else {
-		opts = append(opts, hsmsss.WithPassive(), hsmsss.WithListener(ln.listen))
-	}
-	cfg, err := hsmsss.NewConfig("lifepipe", 1, opts...)
-	if err != nil {
-		res.setup = err.Error()
-		return
-	}
-	conn, err := hsmsss.New(cfg)
-	if err != nil {
-		res.setup = err.Error()
-		return
+		var opts []hsmsss.Option
+		for _, o := range co {
+			opts = append(opts, hsmsss.WithConnectionOption(o))
+		}
+		if libActive {
+			opts = append(opts, hsmsss.WithActive(), hsmsss.WithDialer(ln.dial))
+		} else {
+			opts = append(opts, hsmsss.WithPassive(), hsmsss.WithListener(ln.listen))
+		}
+		cfg, err := hsmsss.NewConfig("lifepipe", 1, opts...)
+		if err != nil {
+			res.setup = err.Error()
+			return
+		}
+		c2, err := hsmsss.New(cfg)
+		if err != nil {
+			res.setup = err.Error()
+			return
+		}
+		conn = c2
 	}
 	var hung atomic.Bool
 	// guarded runs one blocking API call under a watchdog: a call that does not return within
@@ -374,6 +439,11 @@ func c10RunHistory(h c10History) (res c10Result) {
 			ctx, cancel := context.WithTimeout(context.Background(), time.Duration(o.Arg)*time.Millisecond)
 			defer cancel()
 			_, e := conn.SendDataMessage(ctx, 1, 1, true, secs2.A("X"))
+			o.res = fmt.Sprint(e == nil)
+		case "sendBig": // a multi-block message on SECS-I (about nine blocks), a large frame on HSMS-SS
+			ctx, cancel := context.WithTimeout(context.Background(), time.Duration(o.Arg)*time.Millisecond)
+			defer cancel()
+			_, e := conn.SendDataMessage(ctx, 6, 11, false, secs2.B(bytes.Repeat([]byte{0x5a}, 2000)))
 			o.res = fmt.Sprint(e == nil)
 		case "sendAsync":
 			e := conn.SendDataMessageAsync(context.Background(), 1, 3, false, secs2.A("Y"))
@@ -452,10 +522,9 @@ func c10RunHistory(h c10History) (res c10Result) {
 	// reopen: a closed connection behaves like a fresh one
 	if !errors.Is(res.finalErr1, hsms.ErrNotOpen) || true {
 		phase.Store(1)
-		mode := hsms.OpenWaitSelected
-		if !libActive {
-			mode = hsms.OpenBackground
-		}
+		// Background open + a generous wait for Selected: under -race / heavy load a first select can outlast
+		// T6 and be retried by the reconnect loop, which is recovery, not a failure of the reopen.
+		mode := hsms.OpenBackground
 		ctx, cancel := context.WithTimeout(context.Background(), 3*time.Second)
 		var e error
 		if !guarded(hangLimit, func() { e = conn.Open(ctx, mode) }) {
@@ -467,8 +536,15 @@ func c10RunHistory(h c10History) (res c10Result) {
 		if e != nil {
 			res.reopenErr = e.Error()
 		} else {
-			if lifeWait(3*time.Second, func() bool { return conn.State() == hsms.SelectedState }) {
-				ctx, cancel := context.WithTimeout(context.Background(), 2*time.Second)
+			// up to three tries: on a loaded machine (-race) a protocol timer can expire on the harness peer's
+			// slowness; the connection then reconnects by itself, which is still "works like a fresh one"
+			for try := 0; try < 3; try++ {
+				res.reopenRT = ""
+				if !lifeWait(8*time.Second, func() bool { return conn.State() == hsms.SelectedState }) {
+					res.reopenRT = "reopened connection never reached Selected"
+					break
+				}
+				ctx, cancel := context.WithTimeout(context.Background(), 3*time.Second)
 				rsp, e := conn.SendDataMessage(ctx, 1, 13, true, secs2.A("PING"))
 				cancel()
 				switch {
@@ -477,8 +553,10 @@ func c10RunHistory(h c10History) (res c10Result) {
 				case rsp == nil || rsp.Function() != 14:
 					res.reopenRT = "bad reply"
 				}
-			} else {
-				res.reopenRT = "reopened connection never reached Selected"
+				if res.reopenRT == "" {
+					break
+				}
+				time.Sleep(50 * time.Millisecond)
 			}
 		}
 		var ce error
@@ -520,6 +598,11 @@ func c10Judge(c *Ctx, pool *lifeLeanPool, r c10Result, slack time.Duration) {
 	nontrivial = (opens > 0 && closes > 0 && len(h.Progs) > 1) || (opens > 0 && fault)
 	c.Count(h.text(), nontrivial)
 	c.Stat("hist:role:" + h.Role)
+	if h.Transport == "secs1" {
+		c.Stat("hist:transport:secs1")
+	} else {
+		c.Stat("hist:transport:hsmsss")
+	}
 	c.Stat("hist:tag:" + h.Tag)
 	c.Stat(fmt.Sprintf("hist:goroutines:%d", len(h.Progs)))
 	rep := map[string]any{"history": h, "observations": r.obs, "final_close": fmt.Sprint(r.finalErr1), "final_close_again": fmt.Sprint(r.finalErr2),
@@ -557,7 +640,7 @@ func c10Judge(c *Ctx, pool *lifeLeanPool, r c10Result, slack time.Duration) {
 		case "close", "openBg", "openWait":
 			// may queue on lifeMu behind every Open(wait) budget and one bounded Close
 			bound = c10CloseTimeout + waitBudget + slack
-		case "send":
+		case "send", "sendBig":
 			bound = time.Duration(o.Arg)*time.Millisecond + 300*time.Millisecond + slack // ctx budget, else T3
 		case "sendAsync", "config":
 			bound = slack
@@ -989,8 +1072,22 @@ func runC10(c *Ctx) {
 		defer pool.finish(c)
 	}
 	hs := c10Directed()
-	for i := 0; i < c.Pick(180, 3000); i++ {
+	// the same directed histories on SECS-I (both E4 roles alternate), plus Close in the middle of a multi-block send
+	for i, d := range c10Directed() {
+		d.Transport, d.S1Equip = "secs1", i%2 == 1
+		hs = append(hs, d)
+	}
+	for i, role := range []string{"active", "passive", "active", "passive"} {
+		hs = append(hs, c10History{Role: role, Transport: "secs1", S1Equip: i >= 2, Tag: "close-mid-block", Behs: []string{"connect", "connect"},
+			Progs: [][]c10Op{{{Kind: "openBg"}, {Kind: "sleep", Arg: 20}, {Kind: "sendBig", Arg: 800}}, {{Kind: "sleep", Arg: 28 + 3*i}, {Kind: "close"}}}})
+	}
+	for i := 0; i < c.Pick(150, 2400); i++ {
 		hs = append(hs, c10GenHistory(c, 0))
+	}
+	for i := 0; i < c.Pick(40, 600); i++ {
+		g := c10GenHistory(c, 0)
+		g.Transport, g.S1Equip = "secs1", i%2 == 1
+		hs = append(hs, g)
 	}
 	if v := os.Getenv("VERIF_C10_MAX"); v != "" { // debugging aid: run only the first N histories
 		var n int
